@@ -44,6 +44,7 @@ type smContext struct {
 }
 
 type fieldEff struct {
+	Args   string // for call effects: the argument list as written
 	Field  string // Url field name ("path" also for writes below url.path)
 	Kind   string // inherit | null | fresh | value | deref | elem | call:<method>
 	Detail string
@@ -811,6 +812,14 @@ func (a *smAn) resolveSet(e ast.Expr, s *pst) string {
 	return a.str(e)
 }
 
+func (a *smAn) argText(call *ast.CallExpr) string {
+	var parts []string
+	for _, x := range call.Args {
+		parts = append(parts, a.str(x))
+	}
+	return strings.Join(parts, ", ")
+}
+
 func rootIdentOf(e ast.Expr) *ast.Ident {
 	for {
 		switch x := ast.Unparen(e).(type) {
@@ -877,8 +886,10 @@ func (a *smAn) calleeEffects(call *ast.CallExpr, callee *types.Func, recv ast.Ex
 		if u, ok := act.(*ast.UnaryExpr); ok && u.Op == token.AND {
 			act = u.X
 		}
-		s.invalidate(a.str(act) + ".")
 		elems := pathElems(m)
+		if !a.isIdent(act, a.urlObj) {
+			s.invalidate(a.str(act) + ".")
+		}
 		switch {
 		case a.isIdent(act, a.urlObj):
 			if len(elems) > 0 && strings.HasPrefix(elems[0], "Url:") {
@@ -887,7 +898,7 @@ func (a *smAn) calleeEffects(call *ast.CallExpr, callee *types.Func, recv ast.Ex
 					continue
 				}
 				done[f] = true
-				s.path.Effects = append(s.path.Effects, fieldEff{Field: f, Kind: "call:" + callee.Name(), Detail: m, Pos: call.Pos()})
+				s.path.Effects = append(s.path.Effects, fieldEff{Field: f, Kind: "call:" + callee.Name(), Detail: m, Pos: call.Pos(), Args: a.argText(call)})
 				s.invalidate("url." + f)
 				if f == "scheme" {
 					s.invalidate("Special")
@@ -899,7 +910,7 @@ func (a *smAn) calleeEffects(call *ast.CallExpr, callee *types.Func, recv ast.Ex
 					continue
 				}
 				done[f] = true
-				s.path.Effects = append(s.path.Effects, fieldEff{Field: f, Kind: "call:" + callee.Name(), Detail: m, Pos: call.Pos()})
+				s.path.Effects = append(s.path.Effects, fieldEff{Field: f, Kind: "call:" + callee.Name(), Detail: m, Pos: call.Pos(), Args: a.argText(call)})
 			} else if a.rootObj(act) == a.baseObj && a.baseObj != nil {
 				if done["<base>"] {
 					continue
